@@ -89,13 +89,26 @@ class Recorder:
             self.ctx.count("budget_exhausted_shards")
             return []
         self.ctx.begin(case)
-        signal.setitimer(signal.ITIMER_REAL, self.case_timeout)
-        try:
-            fails = self.mod.check_case(case, self.ctx) or []
-        except CaseTimeout:
-            fails = [Fail("hang", "case did not finish within %ds" % self.case_timeout)]
-        finally:
-            signal.setitimer(signal.ITIMER_REAL, 0)
+        fails = None
+        for attempt, limit in ((0, self.case_timeout), (1, 4 * self.case_timeout)):
+            t_cpu = sum(os.times()[:4])
+            signal.setitimer(signal.ITIMER_REAL, limit)
+            try:
+                fails = self.mod.check_case(case, self.ctx) or []
+                break
+            except CaseTimeout:
+                busy = sum(os.times()[:4]) - t_cpu
+                if attempt == 0 and busy > 0.25 * limit and not getattr(self, "confirmed_hang", False):
+                    # the case was computing all the time (not blocked): on a loaded machine that may just be slowness -
+                    # the watchdog is a wall clock - so it gets one more run with four times the limit before the verdict
+                    self.ctx.count("cases_rerun_after_watchdog")
+                    continue
+                if attempt == 1:
+                    self.confirmed_hang = True  # further watchdog hits in this shard are not given a second run
+                fails = [Fail("hang", "case did not finish within %ds%s" % (limit, "" if attempt == 0 else " (second run, four times the limit)"))]
+                break
+            finally:
+                signal.setitimer(signal.ITIMER_REAL, 0)
         if fails:
             self.failing_cases += 1
             if self.failing_cases >= FAILFAST:
